@@ -1,4 +1,5 @@
 """C02 — a patch never touches configuration outside the generators' ACL.  See DESIGN.md §C02."""
+import copy
 import os
 from collections import OrderedDict as odict
 
@@ -82,7 +83,9 @@ SPECIALS = [
     # the explicit negated form of a cant_delete row beside a catch-all sibling rule
     ("interface *\n    description %cant_delete=1 %prio=1\n    ~\n",
      [S(["interface X"], [S(["description a"]), S(["mtu 9000"])])],
-     [S(["interface X"], [S(["undo description", "description b"]), S(["mtu 9000", "mtu 1500"])])]),
+     [S(["interface X"], [S(["undo description", "description b"]), S(["mtu 9000", "mtu 1500"])])],
+     # a patching rulebook with a catch-all line rule inside the block: the explicit negated form is a line to send
+     "interface *\n    description\n    mtu\n    ~\n"),
 ]
 SPECIAL_ACLS = [x[0] for x in SPECIALS]
 
@@ -103,8 +106,9 @@ class _G:
         self.acl = acl
 
 
-def ctx(vendor, acl):
-    key = (vendor, acl)
+def ctx(vendor, acl, rb_text=None):
+    rb_text = rb_text or RB_TEXT
+    key = (vendor, acl, rb_text)
     if key not in _ctx:
         from annet.vendors import registry_connector
         from annet.annlib.rbparser.acl import compile_acl_text
@@ -124,8 +128,8 @@ def ctx(vendor, acl):
             texts.append(("gb", ACL_B2))
         text = _combine_acl_text(gens, lambda g: g.acl)
         _ctx[key] = {
-            "hw": hw, "dev": StubDevice(hw), "rb": make_rb(RB_TEXT, hw.vendor), "fmt": v.make_formatter(),
-            "prefix": v.reverse, "exit": v.exit, "rules": refdev.parse_rules(RB_TEXT),
+            "hw": hw, "dev": StubDevice(hw), "rb": make_rb(rb_text, hw.vendor), "fmt": v.make_formatter(),
+            "prefix": v.reverse, "exit": v.exit, "rules": refdev.parse_rules(rb_text),
             "acl": compile_acl_text(text, hw.vendor), "acl_text": text,
             "ref": refacl.ALevel.root(refacl.parse_acl(texts, v.reverse)),
         }
@@ -155,7 +159,10 @@ def _uncovered_rows(t, level, path=()):
         if kind is None:
             unc.append(path + (row,))
             continue
-        if kind in ("local", "global") and all(all(r.cant_delete) for r in rules):
+        # the rules that govern the row are the matching ones of highest %prio (an explicit priority is part of the ACL
+        # language); the row is a cant_delete row when all of them forbid deletion
+        top = max(r.prio for r in rules) if rules else 0
+        if kind in ("local", "global") and all(all(r.cant_delete) for r in rules if r.prio == top):
             cd.append(path + (row,))
         u, c = _uncovered_rows(sub or {}, child, path + (row,))
         unc.extend(u)
@@ -163,9 +170,9 @@ def _uncovered_rows(t, level, path=()):
     return unc, cd
 
 
-def check_case(vendor, acl, old, cand):
+def check_case(vendor, acl, old, cand, rb_text=None):
     from annet import api
-    c = ctx(vendor, acl)
+    c = ctx(vendor, acl, rb_text)
     try:
         new_l, _ = refacl.ref_filter(cand, c["ref"])
     except refacl.Ambiguous as e:
@@ -173,7 +180,9 @@ def check_case(vendor, acl, old, cand):
     new = _to_tree(new_l)
     base = {"vendor": vendor, "acl": c["acl_text"], "old": tree_to_json(old), "new": tree_to_json(new)}
     try:
-        diff, patch = api._diff_and_patch(c["dev"], old, new, c["acl"], None, False, rb=c["rb"])
+        # the generator output goes in UNFILTERED: _diff_and_patch applies the ACL to both sides itself (the reference-filtered
+        # `new` is what must be on the device afterwards)
+        diff, patch = api._diff_and_patch(c["dev"], copy.deepcopy(old), copy.deepcopy(cand), c["acl"], None, False, rb=c["rb"])
         paths = [tuple(p) for p in c["fmt"].cmd_paths(patch)]
     except Exception as e:  # noqa
         return False, dict(base, error=repr(e)), "exception:%s" % type(e).__name__, True
@@ -252,7 +261,7 @@ def h_acl_patch(case: int) -> bool:
 
 
 SP_CASES = []
-for _si, (_acl, _o, _n) in enumerate(SPECIALS):
+for _si, (_acl, _o, _n) in enumerate(x[:3] for x in SPECIALS):
     for _vi in range(1 if rt.TIER == "quick" else len(VENDORS)):
         for _oi in range(count(_o)):
             for _ni in range(count(_n)):
@@ -269,8 +278,8 @@ def h_special(case: int) -> bool:
     c = pick(case, SHI, SLO)
     with NoTracing():
         vi, si, oi, ni = SP_CASES[c]
-        acl, osl, nsl = SPECIALS[si]
-        ok, detail, kind, nt = check_case(VENDORS[vi], acl, unrank(osl, oi), unrank(nsl, ni))
+        acl, osl, nsl = SPECIALS[si][:3]
+        ok, detail, kind, nt = check_case(VENDORS[vi], acl, unrank(osl, oi), unrank(nsl, ni), SPECIALS[si][3] if len(SPECIALS[si]) > 3 else None)
         rt.record({"vendor": VENDORS[vi], "special": si, "old": oi, "new": ni}, ok, [vi, si, oi, ni] if nt else None, detail=detail,
                   fingerprint="C02:%s" % kind)
     return ok
@@ -305,8 +314,9 @@ def plan(tier):
 
 def replay(obligation, case):
     if "special" in case:
-        acl, osl, nsl = SPECIALS[case["special"]]
-        ok, detail, kind, _ = check_case(case["vendor"], acl, unrank(osl, case["old"]), unrank(nsl, case["new"]))
+        sp = SPECIALS[case["special"]]
+        acl, osl, nsl = sp[:3]
+        ok, detail, kind, _ = check_case(case["vendor"], acl, unrank(osl, case["old"]), unrank(nsl, case["new"]), sp[3] if len(sp) > 3 else None)
         return {"ok": ok, "detail": detail, "fingerprint": "C02:%s" % kind}
     t = case.get("tier", "quick")
     old_s, new_s = (OLD_Q, NEW_Q) if t == "quick" else (OLD_T, NEW_T)
